@@ -285,7 +285,8 @@ class C14(Family):
     prop = "C14"
     # source-text tie (notes/NOTES-py2lean-arith.md): Generated/Pade.lean is rewritten from the text of
     # control/delay.py:pade of the tree under check on every run and proved equal to the model `pade`
-    extra_modules = ["CtrlVerif.Props.C14Gen"]
+    extra_modules = ["CtrlVerif.Props.C14Gen",
+                     "CtrlVerif.Props.C14Exp"]       # zero-order hold over R: exp, ODE, sampling
 
     def pre_build(self):
         import os
